@@ -228,6 +228,7 @@ class Interp(object):
         self.ext_hooks = opts.get('ext_hooks', {})         # dotted -> f(interp, args, kwargs)
         self.fresh_counter = 0
         self.func_stack = []
+        self.called = set()                                 # qualnames of every package function entered (not hooked) on this run
         self._fp_cache = opts.setdefault('__fp_cache__', {})
         self.abstract = opts.get('abstract', {})            # function qualname -> set of local names to abstract
         self.definitions = []                               # [(qualname, local, occurrence, atom Rat, defining value)]
@@ -695,7 +696,8 @@ class Interp(object):
     def _abstracted(self, name, v):
         """let-abstraction: replace the value of a designated local by a fresh symbol and remember its definition"""
         q = self.func_stack[-1] if self.func_stack else None
-        vals = self.opts.get('abstract_values', {}).get(q)
+        av = self.opts.get('abstract_values', {})
+        vals = av.get(q) or av.get('*')      # '*': wherever the quantity is computed (helpers extracted from the anchor function)
         if vals and isinstance(v, Rat) and not v.is_const():
             # value-directed: the local (whatever its name) holds a quantity the oracle knows under a tag
             from .poly import fingerprint
@@ -1220,6 +1222,8 @@ class Interp(object):
             self.depth -= 1
             raise Undecidable('call depth exceeded at %s' % qual)
         self.func_stack.append(qual)
+        if qual is not None:
+            self.called.add(qual)
         try:
             node = f.node
             env = Env(f.env, f.module)
